@@ -7,12 +7,13 @@ from .relational_common import NAT_LEAN, NAT_LEAN_NH, NAT_NOTE, INSTANCE_NOTE
 def check(tier, seed):
     d = Decision("C15", tier, seed)
     d.add_units(fold_canaries(run_units(specs_masks(tier) + specs_solver(tier) + specs_evals(tier) + specs_wiring(tier))))
-    d.add_lean(NAT_LEAN + NAT_LEAN_NH + ["PV.shift_cov", "PV.scale_cov", "PV.C02_adjoint"])
+    d.add_lean(NAT_LEAN + NAT_LEAN_NH + ["PV.shift_cov", "PV.scale_cov", "PV.C02_adjoint", "PV.Laws.conj_law"])
     d.assumptions += [NAT_NOTE,
                       INSTANCE_NOTE + "conjugation by a block-permutation / state-permutation matrix, by a unitary acting inside levels of H_0 that the kept pattern treats "
                       "as a whole, entry-wise complex conjugation, and projection of a direct sum onto a summand; for these the kept/eliminated split is preserved because "
                       "the pattern computed by block_diagonalize is a function of the block labels and of the energy differences only (PyVC obligations "
                       "mask:kept-iff-energies-within-atol, mask:complementary, mask:symmetric, commuting-flag obligations of unit bd_masks)",
+                      "conjugation law: fully mechanised for the matrix model (PV.Laws.conj_law: entry-wise conjugation of every order of H conjugates every order of H_tilde, U, U^dagger)",
                       "shift: PV.shift_cov with z = c * identity (central, kept); scaling: PV.scale_cov (any non-zero rational factor; the code's thresholds `atol` are "
                       "absolute, so the statement concerns inputs whose kept pattern is unchanged by the scaling - the property's threshold clause)"]
     d.not_decided += ["threshold behaviour (absolute atol, relative 1e-5 of np.isclose) under scaling and shifts: floating point (A-FP); bounded battery only",
